@@ -985,6 +985,11 @@ namespace link_layer {
                 this->connection_requested( details(), connection_data_, static_cast< radio_t& >( *this ) );
                 this->template handle_connection_events< link_layer< Server, ScheduledRadio, Options... > >();
             }
+            else
+            {
+                // a connect request with invalid parameters is ignored; the advertising goes on
+                this->handle_adv_timeout();
+            }
         }
     }
 
